@@ -225,6 +225,8 @@ def lookupManipulatorFunc (env : Env) (sc : Scope) (name optName pos : String) :
 structure Comment where
   pos : String
   text : String
+  /-- byte offset in the setup file -/
+  off : Nat := 0
   deriving Repr, DecidableEq, Inhabited
 
 /-- `isValidIdentifier`: letters, and digits except in first position (no `_`).  Non-ASCII
